@@ -124,14 +124,17 @@ PURE_CALLS = {"print", "len", "str", "int", "format", "do_print", "toString", "t
 @rule("ST3", ["C09"], "statements guarded by diagnostic settings have no effect on model, random state or solver", engine="EFF", floor=20)
 def st3(prog, rr):
     from tables.exceptions import ST3_DIAG_EFFECTS
-    funcs = set(solve_path(prog)) | {f for f in prog.funcs if f.module.name in ("vsc.types", "vsc.constraints") and False}
+    on_path = set(solve_path(prog))
     n = 0
-    for f in sorted(funcs, key=lambda x: x.qual):
+    # diagnostic guards on the solve path; source-info capture (a diagnostic setting too) is tested in the facade, so every function is
+    # scanned for guards on in_srcinfo_mode()
+    for f in sorted(prog.funcs, key=lambda x: x.qual):
         for i in walk_local(f.node):
             if not isinstance(i, ast.If):
                 continue
             t = norm(i.test)
-            if not any(w in t for w in ("debug", "EN_DEBUG", "solve_info is not None", "profile_on()")):
+            words = ("debug", "EN_DEBUG", "solve_info is not None", "profile_on()", "in_srcinfo_mode()") if f in on_path else ("in_srcinfo_mode()",)
+            if not any(w in t for w in words):
                 continue
             # diagnostic branch = the body (positive tests only)
             if t.startswith("not "):
@@ -291,7 +294,7 @@ REF_BOUND = {      # op -> (kind when the variable is on the left, admissible of
 MIRROR = {"Lt": "Gt", "Le": "Ge", "Gt": "Lt", "Ge": "Le", "Eq": "Eq"}
 
 
-@rule("BD3", ["C14"], "propagator tables over-approximate: Lt->Max(>=-1) Le->Max(>=0) Gt->Min(<=+1) Ge->Min(<=0) Eq->Eq, none otherwise; mirrored for var on the right",
+@rule("BD3", ["C14", "C04"], "propagator tables over-approximate: Lt->Max(>=-1) Le->Max(>=0) Gt->Min(<=+1) Ge->Min(<=0) Eq->Eq, none otherwise; mirrored for var on the right",
       engine="PE", floor=45)
 def bd3(prog, rr):
     members = prog.enum_members("BinExprType")
